@@ -83,6 +83,8 @@ func c03(w *core.World, r *core.Report) {
 	ruleListpackStep(w, r)
 	r.Rule("R03.13", "stream expansion: the master entry's field count has a single definition", 1)
 	ruleStreamMasterFields(w, r)
+	r.Rule("R20.11", "chunks of one key are appended in order by one worker: the distributor picks the worker of a keyed entry from the key alone (shared with C20)", 1)
+	ruleChunksSameWorker(w, r)
 	r.Rule("R03.12", "the database an entry is replayed into: tracked database starts unknown/fresh, changes only with selectDB's result, and every change is sent to the target before the next entry (shared with R01.6)", 4)
 	ruleDbTracking(w, r)
 }
@@ -675,9 +677,12 @@ func ruleExpiryPaths(w *core.World, r *core.Report) {
 			}
 		}
 		if !one {
-			for _, in := range core.Instrs(g) {
-				if ret, ok := in.(*ssa.Return); ok && len(ret.Results) == 1 && isConstInt(1)(core.RetVal(ret, 0)) {
-					one = true
+			// the computation may live in a helper of its own: one of its returns is the constant 1
+			for _, h := range append([]*ssa.Function{g}, core.ExpandedCallees(g)...) {
+				for _, in := range core.OwnInstrs(h) {
+					if ret, ok := in.(*ssa.Return); ok && len(ret.Results) == 1 && isConstInt(1)(core.RetVal(ret, 0)) {
+						one = true
+					}
 				}
 			}
 		}
